@@ -62,11 +62,13 @@ if rc:
         machinery("model driver does not build:\n" + bout[-3000:])
 
 # 2b. tie 1b: the registry functions translated from /repo's Go source = the model (DESIGN §11)
-TIE_PROPS = {"C03", "C04", "C05", "C06", "C08", "C18", "C19"}
+TIE_PROPS = {"C03", "C04", "C05", "C06", "C07", "C08", "C15", "C17", "C18", "C19"}
 TIE_THEOREMS = {".IsReservedWord": "IsReservedWord_eq", "File.isLocal": "isLocal_eq", "File.isValidAlias": "isValidAlias_eq",
                 "File.isDotImport": "isDotImport_eq", "File.prefixed": "prefixed_eq", ".guessAlias": "guessAlias_eq",
                 "File.register": "register_src_eq_model", "File.Anon": "Anon_eq", "File.ImportName": "ImportName_eq",
-                "File.ImportNames": "ImportNames_eq", "File.ImportAlias": "ImportAlias_eq"}
+                "File.ImportNames": "ImportNames_eq", "File.ImportAlias": "ImportAlias_eq",
+                "comment.render": "comment_render_eq", "tag.isNull": "tag_isNull_eq", "tag.render": "tag_render_eq",
+                "File.renderImports": "renderImports_src_eq_model"}
 syntactic_tie = None
 escalate = 1
 if prop in TIE_PROPS:
@@ -86,10 +88,13 @@ if prop in TIE_PROPS:
             if cur: bad_thms.add(cur)
     syntactic_tie = {}
     THM_FILE = {t: "JenVerif/Tie/RegistrySrc.lean" for t in TIE_THEOREMS.values()}
-    THM_FILE.update({"guessAlias_eq": "JenVerif/Tie/GuessAliasSrc.lean", "register_src_eq_model": "JenVerif/Tie/Registry.lean"})
+    THM_FILE.update({"guessAlias_eq": "JenVerif/Tie/GuessAliasSrc.lean", "register_src_eq_model": "JenVerif/Tie/Registry.lean",
+                     "comment_render_eq": "JenVerif/Tie/TextSrc.lean", "tag_isNull_eq": "JenVerif/Tie/TextSrc.lean", "tag_render_eq": "JenVerif/Tie/TextSrc.lean",
+                     "renderImports_src_eq_model": "JenVerif/Tie/Registry.lean"})
     DEPS = {"JenVerif/Tie/RegistrySrc.lean": [], "JenVerif/Tie/GuessAliasSrc.lean": [],
-            "JenVerif/Tie/RegisterSrc.lean": ["JenVerif/Tie/RegistrySrc.lean"],
-            "JenVerif/Tie/Registry.lean": ["JenVerif/Tie/RegisterSrc.lean", "JenVerif/Tie/GuessAliasSrc.lean", "JenVerif/Tie/RegistrySrc.lean"]}
+            "JenVerif/Tie/RegisterSrc.lean": ["JenVerif/Tie/RegistrySrc.lean"], "JenVerif/Tie/TextSrc.lean": [], "JenVerif/Tie/ImportsSrc.lean": [],
+            "JenVerif/Tie/Registry.lean": ["JenVerif/Tie/RegisterSrc.lean", "JenVerif/Tie/GuessAliasSrc.lean", "JenVerif/Tie/RegistrySrc.lean",
+                                           "JenVerif/Tie/TextSrc.lean", "JenVerif/Tie/ImportsSrc.lean"]}
     gen_broken = rct and ("Gen/SrcRegistry.lean" in tie_out and "error" in tie_out and not bad_files)
     for fn_, thm in TIE_THEOREMS.items():
         tf = THM_FILE[thm]
@@ -97,7 +102,8 @@ if prop in TIE_PROPS:
             syntactic_tie[fn_] = "untranslated (outside the translated subset of Go); behavioural tie only"
         elif not rct:
             syntactic_tie[fn_] = "proved: translated definition = model (Tie.%s)" % thm
-        elif thm in bad_thms or (thm == "register_src_eq_model" and ("register_eq" in bad_thms or "guessAlias_eq" in bad_thms)):
+        elif thm in bad_thms or (thm == "register_src_eq_model" and ("register_eq" in bad_thms or "guessAlias_eq" in bad_thms)) or \
+                (thm == "renderImports_src_eq_model" and ("renderImports_eq" in bad_thms or "comment_render_eq" in bad_thms)):
             syntactic_tie[fn_] = "NOT proved equal to the model (Tie.%s no longer checks); behavioural tie only" % thm
         elif gen_broken or any(d in bad_files for d in DEPS[tf]):
             syntactic_tie[fn_] = "unchecked (a module it depends on does not build); behavioural tie only"
@@ -134,7 +140,7 @@ tie_proved = syntactic_tie is not None and all(v.startswith("proved") for v in s
 if not rc and obligations:
     audit = "import JenVerif.Props.%s\n" % prop + "".join("#print axioms %s.%s\n" % (prop, n) for n in obligations)
     if tie_proved:
-        audit = "import JenVerif.Tie.Registry\n" + audit + "".join("#print axioms Tie.%s\n" % t for t in sorted(set(TIE_THEOREMS.values()) | {"register_src_keeps_invariant", "register_src_fuel_stable"}))
+        audit = "import JenVerif.Tie.Registry\n" + audit + "".join("#print axioms Tie.%s\n" % t for t in sorted(set(TIE_THEOREMS.values()) | {"register_src_keeps_invariant", "register_src_fuel_stable", "renderImports_src_of_inv"}))
     ap = "%s/audit_%s.lean" % (BUILD, prop)
     open(ap, "w").write(audit)
     rca, aout = sh("lake env lean %s" % ap, cwd=LEAN, timeout=600)
@@ -144,7 +150,7 @@ if not rc and obligations:
     bad = {n: a for n, a in axioms.items() if set(a) - ALLOWED_AXIOMS}
     missing = [n for n in obligations if n not in axioms]
     if tie_proved and "register_src_eq_model" not in axioms: missing.append("Tie.register_src_eq_model")
-    tie_axioms = {k: v for k, v in axioms.items() if k in TIE_THEOREMS.values() or k.startswith("register_src_")}
+    tie_axioms = {k: v for k, v in axioms.items() if k in TIE_THEOREMS.values() or k.startswith("register_src_") or k.startswith("renderImports_src_")}
     for k in tie_axioms: axioms.pop(k)
     bad.update({n: a for n, a in tie_axioms.items() if set(a) - ALLOWED_AXIOMS})
     if bad or grep_hits or rca or missing:
